@@ -115,11 +115,17 @@ pub fn encode_data_rfu(d: &DataDesc, nwk: &[u8; 16], app: &[u8; 16], rfu: u8) ->
 }
 
 pub fn encode_data(d: &DataDesc, nwk: &[u8; 16], app: &[u8; 16]) -> Result<Vec<u8>, BuildErr> {
-    if d.f_opts.len() > 15 {
-        return Err(BuildErr::FOptsTooLong);
-    }
     if d.f_port == Some(0) && !d.f_opts.is_empty() {
         return Err(BuildErr::FOptsWithPortZero);
+    }
+    encode_data_on_the_wire(d, nwk, app)
+}
+
+/// Like `encode_data`, but also encodes what a sender is told not to send and a receiver can still be
+/// handed: FOpts together with a port-0 FRMPayload (the frame is well formed and its MIC verifies).
+pub fn encode_data_on_the_wire(d: &DataDesc, nwk: &[u8; 16], app: &[u8; 16]) -> Result<Vec<u8>, BuildErr> {
+    if d.f_opts.len() > 15 {
+        return Err(BuildErr::FOptsTooLong);
     }
     if d.f_port.is_none() && !d.frm.is_empty() {
         return Err(BuildErr::PayloadWithoutPort);
